@@ -44,6 +44,12 @@ def handle(job):
         for (lo, hi, f) in geo["row_scale"]:
           a[lo:hi] = a[lo:hi] * dtype(f)
         g[nm] = jnp.asarray(a)
+    if geo.get("zero_rows_first"):      # a block that sees no gradient during the first steps: its covariance is
+      nm = f"p{target}"                 # exactly zero at the first refresh, so is its (pseudo-inverse) root
+      lo, hi, nsteps = geo["zero_rows_first"]
+      for g in grads[:nsteps]:
+        a = np.array(g[nm]); a[lo:hi] = 0
+        g[nm] = jnp.asarray(a)
     name = f"p{target}"
     shape = shapes[target]
     param = np.asarray(r.params[name], np.float64)
